@@ -92,17 +92,24 @@ def parse(line):
 # ------------------------------------------------------------------------------------------------
 def part_exhaustive(res, nap, tier, rng):
     """complete small space through the public convolve, both routes (support / ep argument)"""
-    pts = G.lattice(6, step=2 * U)
-    tss = [ts for ts in G.sorted_multisets(pts, 4) if len(ts) >= 1] + [list(c) for n in (5, 6) for c in itertools.combinations(pts, n)]
-    eps = [e for e in G.canonical_isets(pts, 3) if e]
+    def space(npts, nint):
+        pts = G.lattice(npts, step=2 * U)
+        tss = [ts for ts in G.sorted_multisets(pts, 4) if len(ts) >= 1] + [list(c) for n in range(5, npts + 1) for c in itertools.combinations(pts, n)]
+        eps = [e for e in G.canonical_isets(pts, nint) if e]
+        return [(ts, ep) for ts in tss for ep in eps]
     kerns = [[3], [1, 10], [1, 10, 100], [2, -1, 5, 7], [1, 0, -2, 0, 4]]
-    pairs = [(ts, ep) for ts in tss for ep in eps]
     if tier == "quick":
-        pairs = rng.sample(pairs, 1500)
+        # complete: 5-point lattice, supports of <= 2 intervals, all kernels; plus a sample of the 6-point / 3-interval space
+        small = space(5, 2)
+        seen = set((tuple(ts), tuple(ep)) for ts, ep in small)
+        pairs = [(ts, ep, kerns) for ts, ep in small]
+        pairs += [(ts, ep, rng.sample(kerns, 2)) for ts, ep in rng.sample(space(6, 3), 1200) if (tuple(ts), tuple(ep)) not in seen]
+    else:
+        pairs = [(ts, ep, kerns) for ts, ep in space(6, 3)]
     cases, lines = [], []
-    for n, (ts, ep) in enumerate(pairs):
+    for n, (ts, ep, ks) in enumerate(pairs):
         col = [((7 * i + 3 * n) % 19) - 9 for i in range(len(ts))]
-        for k in (kerns if tier != "quick" else rng.sample(kerns, 2)):
+        for k in ks:
             for trim in TRIMS:
                 cases.append((ts, col, ep, k, trim))
                 lines.append("convolve_arg\t%d\t%s\t%s\t%s\t%s" % (MODE[trim], C.fmt_ints(ts), C.fmt_ints(col), C.fmt_iset(ep), C.fmt_ints(k)))
@@ -145,6 +152,9 @@ def part_exhaustive(res, nap, tier, rng):
                 else:
                     r = xobj_b[tk].convolve(np.array(k, dtype=float), ep=epo, trim=trim)
             except Exception as ex:
+                if not ts_in:
+                    res.count("empty_series_raises")      # a series without any sample: nothing is claimed about it
+                    continue
                 res.violations.append({"key": dict(kk, part="exception"), "what": "convolve raised %s: %s" % (type(ex).__name__, str(ex)[:80]),
                                        "input": inp, "impl": type(ex).__name__, "expected": exp})
                 continue
@@ -188,7 +198,7 @@ def rand_case(rng, nmax=36, emax=5, dup=0.15):
 
 def part_random(res, nap, tier, rng):
     """Tsd / TsdFrame / TsdTensor x 1-D / 2-D kernels x trims; model op `frame`; linearity and independence"""
-    N = 500 if tier == "quick" else 6000
+    N = 1500 if tier == "quick" else 12000
     cases, lines = [], []
     for c in range(N):
         ts, ep = rand_case(rng)
@@ -354,7 +364,7 @@ def axis_ok(r, x, ts, ep):
 
 def part_smooth_sinc(res, nap, tier, rng):
     """real-valued kernels through the public API: smooth, windowed-sinc filters (to the declared tolerance)"""
-    N = 60 if tier == "quick" else 600
+    N = 400 if tier == "quick" else 4000
     for c in range(N):
         ts, ep = regular_case(rng, rng.choice([1, 2, 3, 8]))
         kind = rng.choice(["Tsd", "TsdFrame", "TsdTensor"])
@@ -459,10 +469,39 @@ def part_smooth_sinc(res, nap, tier, rng):
             res.sample({"smooth/sinc": True, "epochs": [len(r) for r in rows], "kind": kind, "tb": tb, "std": std_s})
 
 
+def part_empty_epoch(res, nap, tier, rng):
+    """a time support with an interval holding no sample, through smooth / sinc / Butterworth (convolve itself: part 1)"""
+    fs = 1e9 / (2 * U)
+    for c in range(6 if tier == "quick" else 40):
+        ts, ep = regular_case(rng, 30, emax=2)
+        gap_s = ep[-1][1] + 3 * 2 * U
+        ep2 = ep + [(gap_s, gap_s + 2 * U)]
+        data = [rng.randint(-9, 9) for _ in ts]
+        x = nap.Tsd(G.arr(ts), np.array(data, dtype=float), time_support=iset(nap, ep2))
+        inp = {"ts": ts, "ep": ep2, "data": data}
+        res.case(("empty_epoch", c), nontrivial=True)
+        res.count("empty_epoch_filter_cases")
+        calls = (("smooth", lambda: x.smooth(2 * U / 1e9 * 1.0001, size_factor=3)),
+                 ("sinc", lambda: nap.apply_lowpass_filter(x, 0.2 * fs, fs=fs, mode="sinc", transition_bandwidth=0.5)))
+        for nm, f in calls:
+            try:
+                r = f()
+                if [C.to_ns(t) for t in r.t] != ts or support_of(r) != ep2:
+                    res.violations.append({"key": {"op": nm, "part": "time_axis", "empty_epoch": True}, "what": nm + " changed the time axis", "input": inp})
+            except Exception as ex:
+                res.violations.append({"key": {"op": nm, "part": "exception", "empty_epoch": True}, "what": "%s raised %s: %s" % (nm, type(ex).__name__, str(ex)[:80]),
+                                       "input": inp, "impl": type(ex).__name__})
+        try:
+            nap.apply_lowpass_filter(x, 0.2 * fs, fs=fs, mode="butter", order=2)
+            res.count("butter_empty_epoch_ok")
+        except Exception:
+            res.count("butter_empty_epoch_raises")    # SciPy's sosfiltfilt refuses slices not longer than padlen (incl. empty): not claimed
+
+
 def part_sinc_model(res, nap, tier, rng):
     """spectral inversion / band kernels and complementarity on INTEGER kernels: model vs implementation, exact"""
     from pynapple.process import filtering as F
-    N = 150 if tier == "quick" else 1500
+    N = 400 if tier == "quick" else 4000
     cases, lines = [], []
     for c in range(N):
         ts, ep = rand_case(rng, nmax=24, emax=3)
@@ -522,7 +561,7 @@ def part_butter(res, nap, tier, rng):
     fs = 1e9 / (2 * U)
     FUN = {"lowpass": nap.apply_lowpass_filter, "highpass": nap.apply_highpass_filter,
            "bandpass": nap.apply_bandpass_filter, "bandstop": nap.apply_bandstop_filter}
-    N = 80 if tier == "quick" else 800
+    N = 200 if tier == "quick" else 2000
     for c in range(N):
         ftype = rng.choice(sorted(FUN))
         order = rng.randint(1, 4)
@@ -590,7 +629,7 @@ def part_butter(res, nap, tier, rng):
         if c % 37 == 0:
             res.sample({"butter": ftype, "order": order, "epochs": [len(r_) for r_ in rows], "kind": kind})
     # ---- correspondence of the per-epoch bookkeeping: sosfiltfilt replaced by an integer stand-in (in this process only)
-    M = 400 if tier == "quick" else 4000
+    M = 1000 if tier == "quick" else 10000
     cases, lines = [], []
     for c in range(M):
         ts, ep = rand_case(rng, nmax=30, emax=4)
@@ -636,20 +675,21 @@ def part_butter(res, nap, tier, rng):
 def run(res, tier, seed):
     nap = _nap()
     warnings.simplefilter("ignore")
-    res.rule = ("(1) convolve, COMPLETE small space: all sorted multisets of 1-4 timestamps + all 5/6-subsets on a 6-point dyadic lattice x all canonical supports of <=3 intervals with endpoints on "
-                "the lattice (samples on starts/ends, intervals with 0/1/2.. samples, shorter than the kernel) x kernels of length 1..5 (odd and even) x 3 trims, through BOTH routes "
-                "(time support, ep= argument); quick tier samples 1500 (series, support) pairs x 2 kernels. (2) seeded random: Tsd/TsdFrame/TsdTensor x 1-D/2-D integer kernels "
+    res.rule = ("(1) convolve, COMPLETE small space: all sorted multisets of 1-4 timestamps + all larger subsets on an N-point dyadic lattice x all canonical supports of <= m intervals with endpoints on "
+                "the lattice (samples on starts/ends, intervals with 0/1/2.. samples, shorter than the kernel) x 5 kernels of length 1..5 (odd and even) x 3 trims, through BOTH routes "
+                "(time support, ep= argument); thorough: N=6, m=3 complete; quick: N=5, m=2 complete + 1200 sampled pairs of the N=6, m=3 space x 2 kernels. (2) seeded random: Tsd/TsdFrame/TsdTensor x 1-D/2-D integer kernels "
                 "(length 1..9) x trims on 1-5 epochs of 1..14 samples with duplicate timestamps; exact equality with the brute-force statement oracle and with the extracted model; "
                 "linearity (a*x+b*y) and independence (other epochs overwritten) through the public API. (3) smooth and the four windowed-sinc filters (real kernels, tolerance 1e-9): "
                 "per-epoch oracle, time axis, lp+hp = id, bp+bs = id, independence, linearity; integer kernels: model's spectral inversion / band kernels vs implementation, exact. "
                 "(4) Butterworth x4 types x orders 1-4: each epoch == sosfiltfilt on that epoch alone (bit-exact), restricted-object equality, independence, linearity (tolerance); "
-                "bookkeeping correspondence with an integer stand-in for sosfiltfilt. non-trivial = more than one epoch (and no empty epoch in part 1)")
-    res.exhaustive = tier != "quick"
+                "bookkeeping correspondence with an integer stand-in for sosfiltfilt. (5) smooth / sinc on a support with an interval holding no sample. non-trivial = more than one epoch (and no empty epoch in part 1)")
+    res.exhaustive = True
     part_exhaustive(res, nap, tier, random.Random(seed * 11 + 1))
     part_random(res, nap, tier, random.Random(seed * 11 + 2))
     part_sinc_model(res, nap, tier, random.Random(seed * 11 + 3))
     part_smooth_sinc(res, nap, tier, random.Random(seed * 11 + 4))
     part_butter(res, nap, tier, random.Random(seed * 11 + 5))
+    part_empty_epoch(res, nap, tier, random.Random(seed * 11 + 6))
 
 
 def search(res, seed):
